@@ -37,61 +37,81 @@ def run_apidrv(plan, wd, tag, timeout=900):
     return evs, rc, err
 
 
+def matrix_phase(prop, tier, wd, verdict, select=None, min_served=20, min_refused=50):
+    """The method x credential x target x server-set-up matrix of Api.tla over real TLS, judged by ApiTrace.
+    select: optional predicate on cells (C16 uses the key-generation methods only)."""
+    r = tlc("ApiTable", make_cfg(dict(OutFile="cells.json")), wd, name="ApiTable", workers=1)
+    require_ok(r, "ApiTable")
+    cells = json.load(open(os.path.join(wd, "ApiTable", "cells.json")))["cells"]
+    if select:
+        cells = [c for c in cells if select(c)]
+    cells = sorted(cells, key=lambda c: (c["server"], c["cred"], c["method"], c["target"]))
+    modes = sorted({c["server"] for c in cells})
+    reps = 1 if tier == "quick" else 3
+    evs_all = []
+    calls_by_id = {}
+    for mi, mode in enumerate(modes):
+        # a peer prepares the session that Execute / Commit / Contribute / Abort cells refer to
+        calls = [dict(id="setup", cred="valid-signer-2", method="DKG.Prepare", target="c1", epoch=0)]
+        # order: refused credentials first (they must change nothing), then valid ones
+        order = sorted([c for c in cells if c["server"] == mode], key=lambda c: (c["admitted"], c["cred"], c["method"] in ("AccountManager.Lock", "WalletManager.Lock"), c["method"], c["target"]))
+        if tier == "quick" and mode != "bare" and not select:
+            # the other server set-ups: every refused credential in full, the admitted ones for the listing and one signing method
+            order = [c for c in order if not c["admitted"] or c["method"] in ("Lister.ListAccounts", "Signer.Sign", "DKG.Abort")]
+        for i, c in enumerate(order):
+            call = dict(id="%s-c%d" % (mode, i), cred=DIAL[c["cred"]], method=c["method"], target=c["target"], epoch=10 * (i + 1), server=mode)
+            calls.append(call)
+            calls_by_id[call["id"]] = call
+        for rep in range(reps):
+            evs, rc, err = run_apidrv(dict(calls=calls, server_mode=mode), wd, "%s_%d_%d" % (prop.lower(), mi, rep))
+            if rc != 0:
+                raise Inconclusive("apidrv (%s) exited %s: %s" % (mode, rc, err[-400:]))
+            evs_all += evs
+    inv = {v: k for k, v in DIAL.items()}
+    lines = []
+    served = refused = 0
+    for e in evs_all:
+        if e["ev"] != "ApiCall" or e["id"] == "setup":
+            continue
+        lines.append(dict(ev="ApiCall", id=e["id"], cred=inv[e["cred"]], method=e["method"], target=e["target"], outcome=e["outcome"], data=bool(e["data"]), detail=e["detail"][:80],
+                          server=calls_by_id.get(e["id"], {}).get("server", "bare")))
+        served += bool(e["data"])
+        refused += e["outcome"] == "transport"
+    if served < min_served or refused < min_refused:
+        raise Inconclusive("matrix replay looks vacuous: %d cells obtained data, %d refused at transport" % (served, refused))
+    rundir = os.path.join(wd, "ApiTrace")
+    os.makedirs(rundir, exist_ok=True)
+    with open(os.path.join(rundir, "trace.ndjson"), "w") as fh:
+        for ln in lines:
+            fh.write(json.dumps(ln) + "\n")
+    invs = ["NoServiceWithoutCA", "IdentityIsCN"]
+    tr = tlc("ApiTrace", make_cfg(dict(TraceFile="trace.ndjson"), invariants=invs, constraint="HighWater", postcondition="Accepted"), wd, name="ApiTrace", workers=1, timeout=600, dump_trace=False)
+    if not tr.ok:
+        if tr.violated in invs:
+            import re
+            m = re.findall(r"/\\ l = (\d+)", tr.out)
+            pos = int(m[-1]) if m else 0
+            ln = lines[pos - 2] if pos >= 2 else {}
+            verdict.violation("%s:%s:%s" % (tr.violated, ln.get("cred"), ln.get("method")),
+                              "call over real TLS %s violates %s" % (ln, tr.violated), dict(call=ln, api=True, server_mode=ln.get("server", "bare"), calls=[dict(id="setup", cred="valid-signer-2", method="DKG.Prepare", target="c1", epoch=0)] +
+                                   [c for c in calls_by_id.values() if c["id"] == ln.get("id")], invariant=tr.violated))
+        else:
+            raise Inconclusive("ApiTrace validation failed: %s %s" % (tr.violated, tr.error))
+    return dict(states=r.distinct + tr.distinct, transitions=len(cells) + tr.generated, lines=lines, cells=len(cells), served=served, refused=refused, modes=modes)
+
+
 def run_c19(tier, seed):
     prop = "C19"
     t0 = time.time()
     wd = workdir(prop)
     verdict = Verdict(prop)
     try:
-        r = tlc("ApiTable", make_cfg(dict(OutFile="cells.json")), wd, name="ApiTable", workers=1)
-        require_ok(r, "ApiTable")
-        cells = json.load(open(os.path.join(wd, "ApiTable", "cells.json")))["cells"]
-        cells = sorted(cells, key=lambda c: (c["cred"], c["method"], c["target"]))
-        # a peer prepares the session that Execute / Commit / Contribute / Abort cells refer to
-        calls = [dict(id="setup", cred="valid-signer-2", method="DKG.Prepare", target="c1", epoch=0)]
-        # order: refused credentials first (they must change nothing), then valid ones
-        order = sorted(cells, key=lambda c: (c["admitted"], c["cred"], c["method"] in ("AccountManager.Lock", "WalletManager.Lock"), c["method"], c["target"]))
-        for i, c in enumerate(order):
-            calls.append(dict(id="c%d" % i, cred=DIAL[c["cred"]], method=c["method"], target=c["target"], epoch=10 * (i + 1)))
-        reps = 1 if tier == "quick" else 3
-        evs_all = []
-        for rep in range(reps):
-            evs, rc, err = run_apidrv(dict(calls=calls), wd, "c19_%d" % rep)
-            if rc != 0:
-                raise Inconclusive("apidrv exited %s: %s" % (rc, err[-400:]))
-            evs_all += evs
-        inv = {v: k for k, v in DIAL.items()}
-        lines = []
-        served = refused = 0
-        for e in evs_all:
-            if e["ev"] != "ApiCall" or e["id"] == "setup":
-                continue
-            lines.append(dict(ev="ApiCall", id=e["id"], cred=inv[e["cred"]], method=e["method"], target=e["target"], outcome=e["outcome"], data=bool(e["data"]), detail=e["detail"][:80]))
-            served += bool(e["data"])
-            refused += e["outcome"] == "transport"
-        if served < 20 or refused < 50:
-            raise Inconclusive("matrix replay looks vacuous: %d cells obtained data, %d refused at transport" % (served, refused))
-        rundir = os.path.join(wd, "ApiTrace")
-        os.makedirs(rundir, exist_ok=True)
-        with open(os.path.join(rundir, "trace.ndjson"), "w") as fh:
-            for ln in lines:
-                fh.write(json.dumps(ln) + "\n")
-        invs = ["NoServiceWithoutCA", "IdentityIsCN"]
-        tr = tlc("ApiTrace", make_cfg(dict(TraceFile="trace.ndjson"), invariants=invs, constraint="HighWater", postcondition="Accepted"), wd, name="ApiTrace", workers=1, timeout=600, dump_trace=False)
-        if not tr.ok:
-            if tr.violated in invs:
-                import re
-                m = re.findall(r"/\\ l = (\d+)", tr.out)
-                pos = int(m[-1]) if m else 0
-                ln = lines[pos - 2] if pos >= 2 else {}
-                verdict.violation("%s:%s:%s" % (tr.violated, ln.get("cred"), ln.get("method")),
-                                  "call over real TLS %s violates %s" % (ln, tr.violated), dict(call=ln, calls=[c for c in calls if c["id"] in ("setup", ln.get("id"))], invariant=tr.violated))
-            else:
-                raise Inconclusive("ApiTrace validation failed: %s %s" % (tr.violated, tr.error))
+        m = matrix_phase(prop, tier, wd, verdict)
+        lines = m["lines"]
         rc = verdict.finish()
-        cov = dict(states=r.distinct + tr.distinct, transitions=len(cells) + tr.generated, traces_validated_against_impl=len(lines),
-                   samples=lines[:3] + [l for l in lines if l["data"]][:2], cells=len(cells), cells_obtaining_data=served, cells_refused_at_transport=refused,
-                   credential_kinds=sorted(DIAL), exhaustive=True, checker_cmd="tlc ApiTable / ApiTrace; harness cmd/apidrv (real services/api/grpc over TLS on 127.0.0.1)")
+        cov = dict(states=m["states"], transitions=m["transitions"], traces_validated_against_impl=len(lines),
+                   samples=lines[:3] + [l for l in lines if l["data"]][:2], cells=m["cells"], cells_obtaining_data=m["served"], cells_refused_at_transport=m["refused"],
+                   credential_kinds=sorted(DIAL), server_certificate_setups=m["modes"], exhaustive=True, checker_cmd="tlc ApiTable / ApiTrace; harness cmd/apidrv (real services/api/grpc over TLS on 127.0.0.1)")
         write_evidence(prop, tier, seed, "model_checking", cov, time.time() - t0, violations=len(verdict.violations),
                        assumptions=["the model is a finite decision table; TLC's contribution is the completeness of the matrix and the judgement of the recorded calls",
                                     "Go's crypto/tls and gRPC transport are trusted; certificates are ECDSA P-256 minted by the harness"])
@@ -111,6 +131,18 @@ def replay(prop, path):
     obj = json.load(open(path))["replay"]
     wd = workdir(prop + "-replay")
     try:
+        if "storm" in obj:
+            bad = 0
+            for attempt in range(3):
+                evs, rc, err = run_apidrv(dict(calls=[], storm=obj["storm"]), wd, "replay%d" % attempt, timeout=1500)
+                for e in evs:
+                    if e["ev"] == "Storm":
+                        print(json.dumps(e)[:400])
+                bad += rc == 3
+            if bad:
+                print("VIOLATION property=C20 replay=%s" % path)
+                return 1
+            return 0
         if "messages" in obj:
             evs, rc, err = run_apidrv(dict(calls=[], fuzz=obj["messages"]), wd, "replay")
             for e in evs[-6:]:
@@ -120,7 +152,7 @@ def replay(prop, path):
                 print("VIOLATION property=C20 replay=%s" % path)
                 return 1
             return 0
-        evs, rc, err = run_apidrv(dict(calls=obj["calls"]), wd, "replay")
+        evs, rc, err = run_apidrv(dict(calls=obj["calls"], server_mode=obj.get("server_mode", "bare")), wd, "replay")
         for e in evs:
             print(json.dumps(e)[:400])
         return 0 if rc == 0 else 2
